@@ -30,7 +30,7 @@ IsLdrLitT2a(h) == h \in {63711, 63583}                    \* F8DF (U=1) / F85F (
 LdrT2Rt(h2)   == h2 \div 4096
 LdrT2Imm(h2)  == h2 % 4096
 
-Regs0 == [n \in 0..15 |-> Zero(4)]
+Regs0 == [n \in 0..15 |-> [i \in 1..4 |-> 165]]          \* arbitrary on entry (poison)
 St0(pc, thumb) == [pc |-> pc, thumb |-> thumb, r |-> Regs0, written |-> {}, status |-> "run", n |-> 0, loads |-> {}]
 
 \* one segment: base (4-byte word) + bytes
